@@ -11,6 +11,7 @@ import (
 	"github.com/open-telemetry/otel-arrow/pkg/otel/common"
 	"go.opentelemetry.io/collector/pdata/pcommon"
 	"go.opentelemetry.io/collector/pdata/plog"
+	"go.opentelemetry.io/collector/pdata/pmetric"
 	"go.opentelemetry.io/collector/pdata/ptrace"
 )
 
@@ -205,6 +206,70 @@ func childCase(recs []*obsRecord, childType, attrsType int32, keyCol string, dec
 	return fmt.Sprintf("([%s], %s, %s,\n   [%s])", strings.Join(ids, ";"), rows, arows, strings.Join(dec, "; ")), true
 }
 
+// per metric (row order of the decoded batch): the attributes of its number data points, in order
+func decodedPoints(md pmetric.Metrics) []string {
+	var out []string
+	for i := 0; i < md.ResourceMetrics().Len(); i++ {
+		rm := md.ResourceMetrics().At(i)
+		for j := 0; j < rm.ScopeMetrics().Len(); j++ {
+			sm := rm.ScopeMetrics().At(j)
+			for k := 0; k < sm.Metrics().Len(); k++ {
+				m := sm.Metrics().At(k)
+				var dps pmetric.NumberDataPointSlice
+				switch m.Type() {
+				case pmetric.MetricTypeGauge:
+					dps = m.Gauge().DataPoints()
+				case pmetric.MetricTypeSum:
+					dps = m.Sum().DataPoints()
+				default:
+					out = append(out, "None")
+					continue
+				}
+				var as []string
+				for x := 0; x < dps.Len(); x++ {
+					as = append(as, rawAttrs(dps.At(x).Attributes()))
+				}
+				out = append(out, "(Some ["+strings.Join(as, "; ")+"])")
+			}
+		}
+	}
+	return out
+}
+
+// number data points: (metric id cells, [(id cell, parent cell)] of the NUMBER_DATA_POINTS table, its attribute rows, per metric the decoded points)
+func pointCase(recs []*obsRecord, decoded []string) (string, bool) {
+	if len(recs) == 0 {
+		return "", false
+	}
+	main := recs[0].Table
+	if len(decoded) != len(main.Rows) {
+		return "", false
+	}
+	var ids []string
+	for _, row := range main.Rows {
+		ids = append(ids, optCell(row["id"]))
+	}
+	rows, arows := "[]", "[]"
+	for _, r := range recs[1:] {
+		switch int32(r.PType) {
+		case 11:
+			var rs []string
+			for _, row := range r.Table.Rows {
+				p, _ := u64(row["parent_id"])
+				rs = append(rs, fmt.Sprintf("(%s, %d)", optCell(row["id"]), p))
+			}
+			rows = "[" + strings.Join(rs, "; ") + "]"
+		case 15:
+			s, ok := attrRowsCoq(r.Table)
+			if !ok {
+				return "", false
+			}
+			arows = s
+		}
+	}
+	return fmt.Sprintf("([%s], %s, %s,\n   [%s])", strings.Join(ids, ";"), rows, arows, strings.Join(decoded, "; ")), true
+}
+
 func decodedLogs(ld plog.Logs) [][3]string {
 	var out [][3]string
 	for i := 0; i < ld.ResourceLogs().Len(); i++ {
@@ -244,6 +309,37 @@ Definition table_check (c : tcase) : bool :=
   list_eqb (fun a b => entry_eqb (fst a) (fst b) && N.eqb (snd a) (snd b)) (attrs_enc W16 (attrs_dec W16 irows)) irows.
 Definition table_mismatch := Eval vm_compute in failing table_check table_cases.
 Print table_mismatch.
+`
+
+const pointCheckCoq = `(* number data points: metric ids delta encoded (16-bit), the data-point table's parent ids plain-delta encoded (16-bit), its own ids
+   delta encoded (nullable, 32-bit), attributes under those ids.  The model decodes which points belong to which metric and with
+   which attributes, in table order; compared with the gauges / sums the real consumer rebuilt. *)
+Definition W16 : N := 65536.
+Definition W32 : N := 4294967296.
+Definition lookup_attrs (store : list (N * list (bytes * value))) (id : option N) : list (bytes * value) :=
+  match id with Some p => store_get value store p | None => [] end.
+Definition pcase := (list (option N) * list (option N * N) * list (akey * N) * list (option (list (list (bytes * value)))))%type.
+Definition point_check (c : pcase) : bool :=
+  let '(mids, rows, arows, dec) := c in
+  let mids' := id_dec W16 0 mids in
+  let parents := id_dec W16 0 (map (fun r => Some (snd r)) rows) in
+  let pids := id_dec W32 0 (map fst rows) in
+  let ast := attrs_store (attrs_dec W32 arows) in
+  let points := combine parents pids in
+  Nat.eqb (length mids') (length dec) &&
+  forallb (fun r : option N * option (list (list (bytes * value))) =>
+             match snd r with
+             | None => true
+             | Some real =>
+                 let expected := match fst r with
+                                 | Some i => map (fun pt => lookup_attrs ast (snd pt))
+                                                 (filter (fun pt => match fst pt with Some p => N.eqb p i | None => false end) points)
+                                 | None => []
+                                 end in
+                 list_eqb (perm_eqb entry_eqb) expected real
+             end) (combine mids' dec).
+Definition point_mismatch := Eval vm_compute in failing point_check point_cases.
+Print point_mismatch.
 `
 
 const childCheckCoq = `(* events and links: the child table's parent ids are group-delta encoded on the event name / link trace id (16-bit), its own
